@@ -25,7 +25,7 @@ uint64_t app_time_to_ticks(double t) { return (uint64_t)ldexp(t, (int)app_prog.g
 
 static struct app_state **app_state_ptr;
 static uint64_t app_nostate_mod;
-static int app_keep_ticking;
+static int app_keep_ticking, app_init_via;
 
 int app_load(const char *path)
 {
@@ -84,6 +84,7 @@ int app_load(const char *path)
 	app_fini_calls = calloc(p->lps, sizeof(uint64_t));
 	app_state_ptr = calloc(p->lps, sizeof(*app_state_ptr));
 	app_keep_ticking = getenv("VERIF_KEEP_TICKING") != NULL;
+	app_init_via = getenv("VERIF_INIT_VIA") != NULL;
 	app_nostate_mod = getenv("VERIF_NOSTATE_MOD") ? strtoull(getenv("VERIF_NOSTATE_MOD"), NULL, 0) : 0;
 	return 0;
 }
@@ -153,13 +154,16 @@ void app_process(lp_id_t me, simtime_t now, unsigned type, const void *pl, unsig
 		app_state_ptr[me] = s;
 		if(!(app_nostate_mod && me % app_nostate_mod == app_nostate_mod - 1))
 			SetState(s);
+		/* VERIF_INIT_VIA=1: the initial events of LP x are scheduled, with the very same content, by LP x+1 from ITS LP_INIT handler: the
+		   event population is unchanged (same reference run) but initial events now cross LPs, worker threads and ranks */
+		lp_id_t owner = app_init_via ? (me + app_prog.lps - 1) % app_prog.lps : me;
 		uint64_t j = 0;
 		for(int i = 0; i < app_prog.ninits; ++i) {
 			const struct app_init *in = &app_prog.inits[i];
-			if(in->lp != me)
+			if(in->lp != owner)
 				continue;
-			unsigned sz = make_payload(s->acc, j++, in->size, in->type, buf);
-			ScheduleNewEvent(me, app_ticks_to_time(in->ticks), (unsigned)in->type, sz ? buf : NULL, sz);
+			unsigned sz = make_payload(mix(SEEDC, owner), j++, in->size, in->type, buf);
+			ScheduleNewEvent(owner, app_ticks_to_time(in->ticks), (unsigned)in->type, sz ? buf : NULL, sz);
 		}
 		return;
 	}
